@@ -472,6 +472,11 @@ func rGenPaths(rng *rand.Rand, rs []rRoute, k int) []string {
 		if path == "" {
 			path = "/"
 		}
+		if rng.Intn(40) == 0 {
+			// request targets that are legal HTTP but not rooted paths: `OPTIONS *`, the empty path of an absolute-form target
+			// (`GET http://example.com`), a relative path handed to Router.Find directly - no rooted pattern has them as instance
+			path = []string{"*", "", "users/1", "a", "ab/"}[rng.Intn(5)]
+		}
 		out = append(out, path)
 	}
 	return out
